@@ -211,18 +211,18 @@ Section Handle.
 
   (* the decision chain and the move *)
   Theorem handle_ir_eq s cur exports orgname asname origin :
-    is_inst s cur CModule = true -> wf_objs s ->
+    is_inst s cur CModule = true -> is_inst s origin CModule = true -> wf_objs s ->
     handle_ir C s cur exports orgname asname origin = Some (handle_reexport s cur exports orgname asname origin).
   Proof.
-    intros Hcur [W1 W2 W3]. unfold handle_ir, handle_reexport. change (c_handle C) with code_handle. unfold code_handle.
+    intros Hcur Horg [W1 W2 W3]. unfold is_inst in Horg. destruct (objs s origin) as [gb|] eqn:Hg; [|discriminate].
+    unfold handle_ir, handle_reexport. change (c_handle C) with code_handle. unfold code_handle.
     destruct (memN asname exports) eqn:Hin; [|go; reflexivity].
     (* the object the name refers to in the origin module *)
     assert (Hfound : forall c, match nget orgname (contents_of s origin) with Some c0 => Some c0 | None => resolve_name s origin [orgname] end = Some c ->
                                objs s c <> None).
-    { intros c. unfold contents_of. destruct (objs s origin) as [gb|] eqn:Hg.
-      - destruct (nget orgname (o_contents gb)) as [c0|] eqn:Hc; [intros E; inversion E; subst c0; exact (W1 origin gb orgname c Hg Hc)|].
-        unfold resolve_name. intros E. exact (W2 _ c E).
-      - cbn [nget aget]. unfold resolve_name. intros E. exact (W2 _ c E). }
+    { intros c. unfold contents_of. rewrite Hg.
+      destruct (nget orgname (o_contents gb)) as [c0|] eqn:Hc; [intros E; inversion E; subst c0; exact (W1 origin gb orgname c Hg Hc)|].
+      unfold resolve_name. intros E. exact (W2 _ c E). }
     assert (Hmove : forall c cb q, objs s c = Some cb -> o_parent cb = Some q ->
                                    reparent_ir C s c cur asname = Some (reparent s c cur asname)).
     { intros c cb q Hc Hp. exact (reparent_ir_eq s c cur asname cb q Hc Hp (W3 c cb q Hc Hp)). }
@@ -230,13 +230,11 @@ Section Handle.
     - pose proof (Hfound c eq_refl) as Hex. destruct (objs s c) as [cb|] eqn:Hcb; [|congruence].
       destruct (o_parent cb) as [q|] eqn:Hp; [|go; reflexivity].
       pose proof (Hmove c cb q Hcb Hp) as HM.
-      destruct (objs s origin) as [gb|] eqn:Hg; [destruct (o_all gb) as [a|] eqn:Ha; [destruct (memN orgname a) eqn:Hl|]|];
-        go; reflexivity.
+      destruct (o_all gb) as [a|] eqn:Ha; [destruct (memN orgname a) eqn:Hl|]; go; reflexivity.
     - destruct (resolve_name s origin [orgname]) as [c|] eqn:Hr; [|go; reflexivity].
       pose proof (Hfound c eq_refl) as Hex. destruct (objs s c) as [cb|] eqn:Hcb; [|congruence].
       destruct (o_parent cb) as [q|] eqn:Hp; [|go; reflexivity].
       pose proof (Hmove c cb q Hcb Hp) as HM.
-      destruct (objs s origin) as [gb|] eqn:Hg; [destruct (o_all gb) as [a|] eqn:Ha; [destruct (memN orgname a) eqn:Hl|]|];
-        go; reflexivity.
+      destruct (o_all gb) as [a|] eqn:Ha; [destruct (memN orgname a) eqn:Hl|]; go; reflexivity.
   Qed.
 End Handle.
